@@ -11,7 +11,7 @@ from fractions import Fraction
 import numpy as np
 from . import common
 
-THEOREM_FILES = ['NumqiProps/C05.lean', 'NumqiProofs/DecisionC05.lean']
+THEOREM_FILES = ['NumqiProps/C05.lean', 'NumqiProofs/DecisionC05.lean', 'NumqiProofs/EntangleAccept.lean', 'NumqiProofs/EntangleBridge.lean']
 LEVEL = 'proof'
 RULE = ('correspondence ops: Gaussian-integer Hermitian matrices (random, diagonal, unit, sparse) for every dimension list in '
         '(2,2),(2,3),(3,2),(3,3),(2,4),(2,2,2),(2,3,2),(3,2,2),(2,2,2,2) through is_ppt / is_generalized_ppt / check_reduction_witness / '
@@ -356,7 +356,14 @@ def capture():
 
 
 def parse_ents(s, N):
-    v = [complex(int(a), int(b)) for a, b in (t.split(',') for t in s.split(';'))]
+    """entries `a,b` (Gaussian integer) or `p/q` (exact real rational)"""
+    v = []
+    for t in s.split(';'):
+        if ',' in t:
+            a, b = t.split(',')
+            v.append(complex(int(a), int(b)))
+        else:
+            v.append(complex(float(Fraction(t)), 0.0))
     return np.array(v, dtype=np.complex128).reshape(N, N)
 
 
@@ -439,14 +446,9 @@ def impl_op(op):
 
 
 def model_line(op, T):
-    """the op line sent to the Lean driver: `default` is replaced by the generated default so that the model is evaluated at the
-    constant the translator extracted (the implementation is called without the keyword)"""
-    t = op.split(' ')
-    if len(t) >= 5 and t[3] == 'default':
-        key = {'vppt': 'isPptEpsDefault', 'vred': 'reductionEpsDefault', 'vgppt': 'gpptThresholdDefault', 'vswap': 'swapEpsDefault'}[t[1]]
-        v = T.get(key)
-        t[3] = frac_str(v) if v is not None else '0/1'
-    return ' '.join(t)
+    """the op line is sent unchanged: for `default` the driver itself uses the constant of Generated/Thresholds.lean (the one the
+    robust-acceptance theorems are about) and the implementation is called without the keyword"""
+    return op
 
 
 def rand_gint_matrix(rng, N, hermitian, lo=-3, hi=3, density=1.0):
@@ -500,6 +502,20 @@ def gen_ops(ctx):
             r, c = int(rng.integers(0, N)), int(rng.integers(0, N))
             U = np.zeros((N, N), dtype=np.complex128); U[r, c] = kk
             ops.append(f'C05 vgppt {ds} {th} {ents(U)}')
+        # the default tolerances by magnitude (not only by sign): values at half and at twice the tolerance, exact rationals
+        def rat_diag(vals):
+            M = [['0/1'] * N for _ in range(N)]
+            for k, v in enumerate(vals):
+                M[k][k] = v
+            return ';'.join(x for row in M for x in row)
+        for x in ('-1/20000000', '-1/5000000', '-1/10000001', '-1/9999999', '0/1', '1/20000000'):
+            ops.append(f'C05 vppt {ds} default ' + rat_diag(['1/2'] * (N - 1) + [x]))
+            ops.append(f'C05 vred {ds} default ' + rat_diag([x] + ['0/1'] * (N - 1)))
+            if len(dim) == 2 and dim[0] == dim[1]:
+                ops.append(f'C05 vswap {ds} default ' + rat_diag([x] + ['0/1'] * (N - 1)))
+        for k in ('20000000001/20000000000', '5000000001/5000000000', '1/1', '9999999999/10000000000', '-20000000001/20000000000'):
+            M = ['0/1'] * (N * N); M[int(rng.integers(0, N * N))] = k
+            ops.append(f'C05 vgppt {ds} default ' + ';'.join(M))
         if len(dim) == 2 and dim[0] == dim[1]:
             for r in range(rep * 2):
                 G = rand_gint_matrix(rng, N, False)
@@ -531,7 +547,7 @@ def correspondence(ctx):
         e = t[-1].split(';')
         N = int(round(math.sqrt(len(e))))
         off = [x for i, x in enumerate(e) if i % (N + 1) != 0]
-        return any(x != '0,0' for x in off) or len(set(e[:: N + 1])) > 1
+        return any(x not in ('0,0', '0/1') for x in off) or len(set(e[:: N + 1])) > 1
     common.compare(ctx, ops, impl, model, nontrivial=nontrivial)
     ctx.extra['exhaustive'] = True
     ctx.extra['exhaustive_domain'] = ('every single-entry matrix (all index pairs) of the systems with N<=6 through is_ppt / is_generalized_ppt / '
